@@ -38,7 +38,30 @@ PREDICATES = ["isdatetype", "isdatetimetype", "istimetype", "istimedeltatype", "
               "isiterabletype", "isiteratortype", "istupletype", "iscollectiontype", "ismappingtype", "issequencetype",
               "isenumtype", "isstringtype", "isnumbertype", "isintegertype", "isfloattype", "ispatterntype", "ispathtype", "istexttype",
               "isbytestype", "isuniontype", "isoptionaltype", "isliteral", "isfinal", "isclassvartype", "isnonetype", "isforwardref",
-              "istypeddict", "isnamedtuple", "isfixedtupletype", "isstructuredtype", "isfrozendataclass", "istypealiastype"]
+              "istypeddict", "isnamedtuple", "isfixedtupletype", "isstructuredtype", "isfrozendataclass", "istypealiastype",
+              "isstdlibtype", "isbuiltintype"]
+# the documented tables (BuiltIntypeT / STDLibtypeT in py/inspection.py), written out independently
+BUILTIN_TABLE = (int, bool, float, str, bytes, bytearray, list, set, frozenset, tuple, dict, type(None))
+STDLIB_TABLE = BUILTIN_TABLE + (datetime.datetime, datetime.date, datetime.timedelta, datetime.time, decimal.Decimal, ipaddress.IPv4Address,
+                                ipaddress.IPv6Address, pathlib.Path, uuid.UUID, collections.defaultdict, collections.deque, types.MappingProxyType)
+
+
+def table_facts(o, table):
+    """Per member other than None (or for the object itself): is the NewType-resolved class in the table?"""
+    org = typing.get_origin(o)
+    if org in (typing.Union, types.UnionType):
+        members = [a for a in typing.get_args(o) if a is not None and a is not type(None)]
+    else:
+        members = [o]
+    out = []
+    for m in members:
+        k = 0
+        while hasattr(m, "__supertype__") and k < 10:
+            m = m.__supertype__; k += 1
+        if m is None:
+            m = type(None)
+        out.append(("T" if m in table else "F") if inspect.isclass(m) else "?")
+    return out
 
 _SRC = '''
 import dataclasses, enum, typing, collections
@@ -83,6 +106,8 @@ class MyIter:
     def __iter__(self): return self
     def __next__(self): raise StopIteration
 T = typing.TypeVar("T")
+ModSA = typing.TypeAliasType("ModSA", "DC")
+ModNTSA = typing.NewType("ModNTSA", ModSA)
 class Box(typing.Generic[T]):
     def __init__(self, v: T): self.v = v
 class Page(typing.TypedDict, typing.Generic[T]):
@@ -107,10 +132,23 @@ class GList(list[T]): pass
 '''
 
 
+_SRC2 = '''
+import typing, verif_catalogue as c1
+class DC:            # another class of the same name: a reference to "DC" means c1.DC only where it is resolved in c1
+    pass
+OtherNTSA = typing.NewType("OtherNTSA", c1.ModSA)
+OtherASA = typing.TypeAliasType("OtherASA", c1.ModSA)
+OtherNTNTSA = typing.NewType("OtherNTNTSA", OtherNTSA)
+'''
+
+
 def catalogue():
     mod = types.ModuleType("verif_catalogue")
     sys.modules["verif_catalogue"] = mod
     exec(compile(_SRC, "<verif-catalogue>", "exec", dont_inherit=True), mod.__dict__)
+    mod2 = types.ModuleType("verif_catalogue2")
+    sys.modules["verif_catalogue2"] = mod2
+    exec(compile(_SRC2, "<verif-catalogue2>", "exec", dont_inherit=True), mod2.__dict__)
     g = mod.__dict__
     objs = {}
 
@@ -155,7 +193,12 @@ def catalogue():
     add("int|None", int | None, group="opt:int"); add("Union[None,int]", typing.Union[None, int], group="opt:int")
     add("Union[int,str]", typing.Union[int, str], group="u:int,str"); add("int|str", int | str, group="u:int,str")
     add("Union[str,int]", typing.Union[str, int]); add("Union[int,str,None]", typing.Union[int, str, None])
-    add("Optional[DC]", typing.Optional[g["DC"]]); add("list[int]|None", list[int] | None)
+    add("Optional[DC]", typing.Optional[g["DC"]], group="opt:DC"); add("list[int]|None", list[int] | None)
+    add("Union[None,DC]", typing.Union[None, g["DC"]], group="opt:DC"); add("DC|None", g["DC"] | None, group="opt:DC")
+    add("Union[int,DC,None]", typing.Union[int, g["DC"], None], group="u:int,DC,None"); add("int|DC|None", int | g["DC"] | None, group="u:int,DC,None")
+    add("Union[DC,int,None]", typing.Union[g["DC"], int, None]); add("Union[None,int,DC]", typing.Union[None, int, g["DC"]])
+    add("Union[None,int,str]", typing.Union[None, int, str]); add("Union[int,None,date]", typing.Union[int, None, datetime.date])
+    add("Union[date,Decimal]", typing.Union[datetime.date, decimal.Decimal]); add("Union[NewType(int),None]", typing.Union[typing.NewType("NTi2", int), None])
     add("Literal[1,'a']", typing.Literal[1, "a"]); add("Literal['a',None]", typing.Literal["a", None]); add("Literal['a',1]", typing.Literal["a", 1])
     add("Final[int]", typing.Final[int]); add("ClassVar[int]", typing.ClassVar[int]); add("Final[list[int]]", typing.Final[list[int]])
     add("ClassVar[list[int]]", typing.ClassVar[list[int]])
@@ -167,7 +210,11 @@ def catalogue():
     NTstr = typing.NewType("NTstr", str); NTdate = typing.NewType("NTdate", datetime.date); Adict = typing.TypeAliasType("Adict", dict[str, int])
     for n, o in (("NewType(int)", NTint), ("NewType(list)", NTlist), ("NewType(DC)", NTDC), ("NewType(NewType(int))", NTNT), ("Alias(int)", Aint),
                  ("Alias(list[int])", Alist), ("NewType(Alias(list[int]))", NTA), ("Alias(DC)", ADC), ("StrAlias(DC)", SA), ("NewType(str)", NTstr),
-                 ("NewType(date)", NTdate), ("Alias(dict[str,int])", Adict), ("ClassVar[Alias(list[int])]", typing.ClassVar[Alist])):
+                 ("NewType(date)", NTdate), ("Alias(dict[str,int])", Adict), ("ClassVar[Alias(list[int])]", typing.ClassVar[Alist]),
+                 # a string-valued alias of the catalogue module, behind wrappers that live elsewhere (typing, another module)
+                 ("ModStrAlias(DC)", g["ModSA"]), ("NewType(ModStrAlias)", g["ModNTSA"]), ("Final[ModStrAlias]", typing.Final[g["ModSA"]]),
+                 ("ClassVar[ModStrAlias]", typing.ClassVar[g["ModSA"]]), ("other.NewType(ModStrAlias)", mod2.OtherNTSA),
+                 ("other.Alias(ModStrAlias)", mod2.OtherASA), ("other.NewType(NewType(ModStrAlias))", mod2.OtherNTNTSA)):
         add(n, o)
     return objs
 
@@ -193,6 +240,21 @@ def resolve(o):
     c = org or o
     c = ABSTRACT.get(c, c)
     return c if inspect.isclass(c) else None
+
+
+def deferred(o):
+    for _ in range(12):
+        if typing.get_origin(o) in (typing.Final, typing.ClassVar) and typing.get_args(o):
+            o = typing.get_args(o)[0]
+        elif isinstance(o, typing.TypeAliasType):
+            if isinstance(o.__value__, str):
+                return True
+            o = o.__value__
+        elif hasattr(o, "__supertype__"):
+            o = o.__supertype__
+        else:
+            return False
+    return False
 
 
 def facts(o):
@@ -226,7 +288,8 @@ def facts(o):
          "userclass": plain and getattr(o, "__module__", "") == "verif_catalogue" and not any(sub(o, b) for b in STDLIB_EXACT if b is not type(None)),
          "stdlibexact": plain and o in STDLIB_EXACT,
          "frozen": bool(getattr(getattr(o, "__dataclass_params__", None), "frozen", False)),
-         "isalias": isinstance(o, typing.TypeAliasType)}
+         "isalias": isinstance(o, typing.TypeAliasType), "deferred": deferred(o),
+         "stdlibtbl": table_facts(o, STDLIB_TABLE), "builtintbl": table_facts(o, BUILTIN_TABLE)}
     return f
 
 
@@ -315,7 +378,7 @@ def run(ctx: Ctx) -> Outcome:
     # accessors: origin / args / unwrap against typing
     for n in names:
         o, grp = objs[n]
-        if isinstance(o, typing.ForwardRef) or (isinstance(o, typing.TypeAliasType) and isinstance(o.__value__, str)) or o is type:
+        if isinstance(o, typing.ForwardRef) or deferred(o) or o is type:
             continue
         exp = expected_origin(o)
         for fnname, expect in (("origin", show(exp) if not (exp is typing.Callable or (inspect.isclass(exp) and issubclass(exp, cabc.Callable) and exp is not type) or inspect.isroutine(exp)) else None),):
@@ -346,6 +409,39 @@ def run(ctx: Ctx) -> Outcome:
                     inst = hasattr(a, "_fields")
             events.append({"ev": "instantiable", "isclass": bool(ok_cls), "instantiable": bool(inst), "rightkind": bool(ok_cls and issubclass(a, r))})
             meta.append({"p": "origin-instantiable", "obj": n, "exc": exc or ""})
+    # unwrap(): through Final / ClassVar / aliases / NewTypes; a string-valued alias ends in a reference to that text in the
+    # module of the alias that holds it (whatever wrapper was asked)
+    def expected_unwrap(o):
+        for _ in range(12):
+            if typing.get_origin(o) in (typing.Final, typing.ClassVar) and typing.get_args(o):
+                o = typing.get_args(o)[0]
+            elif isinstance(o, typing.TypeAliasType):
+                if isinstance(o.__value__, str):
+                    return ("ref", o.__value__, o.__module__)
+                o = o.__value__ if o.__value__ is not None else type(None)
+            elif hasattr(o, "__supertype__"):
+                o = o.__supertype__ if o.__supertype__ is not None else type(None)
+            else:
+                break
+        return show(o)
+
+    def got_unwrap(x):
+        r = inspection.unwrap(x)
+        if isinstance(r, typing.ForwardRef):
+            return ("ref", r.__forward_arg__, r.__forward_module__)
+        return show(r)
+    for n in names:
+        o, grp = objs[n]
+        if isinstance(o, typing.ForwardRef) or type(o) is typing.TypeVar or o is type:
+            continue
+        if isinstance(o, typing.TypeAliasType) and isinstance(o.__value__, str) and o.__module__ not in ("verif_catalogue", "verif_catalogue2"):
+            continue            # an alias made inside a function: its text has no module to be resolved in
+        clear_typelib_caches()
+        a, exc = ask(got_unwrap, o)
+        b, _ = ask(got_unwrap, o)
+        events.append({"ev": "accessor", "expect": show(expected_unwrap(o)), "got": "raised" if a == "raised" else show(a),
+                       "again": "raised" if b == "raised" else show(b)})
+        meta.append({"p": "unwrap", "obj": n, "exc": exc or ""})
     # name / qualname against the runtime's own attributes; ishashable / isproperty / isdescriptor over an instance pool
     import functools
     for n in names:
